@@ -1259,6 +1259,22 @@ def L_poll(fn, ready, poll_blocks):
     return pred
 
 
+def L_result(fn, ok, site_blocks, variants=None):
+    """Edge predicate, shape-independent: taking the edge implies that the Result produced by a call sitting in one of
+    site_blocks (possibly wrapped in Poll::Ready / moved through temporaries / unpacked by `ready!` and `?`) is Ok
+    (ok=True) / Err (ok=False)."""
+    site_blocks = set(site_blocks)
+    want = variants or ({"Ok"} if ok else {"Err"})
+
+    def pred(lab):
+        if lab.kind != "variant" or lab.variants != want:
+            return False
+        base = {"l": lab.place["l"], "p": list(lab.place["p"])}
+        return any(r.kind == "call" and r.site.bb in site_blocks for r in fn.roots(base, through_calls=False))
+
+    return pred
+
+
 def fields_of(facts, adt_suffix):
     a = facts.adt(adt_suffix)
     return [(fl["name"], fl["ty"]) for fl in a["variants"][0]["fields"]] if a else []
